@@ -82,7 +82,7 @@ STR_CLASS_ID = 100                 # every string-taking directive (and every un
 REGS = {"r0": 0, "r1": 1, "r2": 2, "r3": 3, "r4": 4, "r5": 5, "r6": 6, "r7": 7, "sp": 6, "pc": 7}
 
 # caret-group delimiters the rewriter may choose (ids 1..4); other legal delimiters get ids >= 5
-DELIMS = "/|\\?"
+DELIMS = "/|:?"                    # (':' instead of the former backslash: a caret group closed by a colon right after a symbol is a case of its own)
 _ALL_DELIMS = "$_=[]\\{}|:/<>?"
 OP_IDS = {"/": 1, "|": 2, "*": 10, "&": 11, "!": 12, "_": 13, "^": 14, "%": 15, "<<": 16, ">>": 17, "~": 18, "^c": 19}
 
